@@ -140,6 +140,14 @@ u_buf(uint64_t idx, void *arg)
             VH_SUB(4, cut);
             /* place both parts exact-size so that an over-read is seen */
             uint16_t a = ufw_crc16_arc(init, b, cut);
+            /* another computation in between: the state of a checksum is its value, nothing else */
+            if ((cut & 3) == 1) {
+                static const uint8_t other[5] = { 0xff, 0x00, 0xa5, 0x3c, 0xc0 };
+                static const uint16_t ow[2] = { 0x1234, 0x0000 };
+                volatile uint16_t sinkv = ufw_crc16_arc((uint16_t)cut, other, 1 + cut % 5);
+                sinkv = ufw_crc16_arc_u16((uint16_t)(cut * 7u), ow, 1 + cut % 2);
+                (void)sinkv;
+            }
             uint16_t c = ufw_crc16_arc(a, b + cut, n - cut);
             if (c != exp)
                 vh_fail("split", "api=ufw_crc16_arc", "n=%zu cut=%zu init=%04x got=%04x exp=%04x", n, cut, init, c,
